@@ -115,7 +115,7 @@ func loadContracts(root string, extraDirs ...string) (*Contracts, error) {
 		Ghost: map[string]*GhostField{}, Closed: map[string][]string{}, Guards: map[string]string{}, Preds: map[string]*Pred{}}
 	var files []string
 	filepath.Walk(filepath.Join(root, "internal"), func(p string, info os.FileInfo, err error) error {
-		if err == nil && !info.IsDir() && info.Name() == "contracts_verif.go" {
+		if err == nil && !info.IsDir() && strings.HasPrefix(info.Name(), "contracts_verif") && strings.HasSuffix(info.Name(), ".go") {
 			files = append(files, p)
 		}
 		return nil
